@@ -157,7 +157,7 @@ def write_evidence(prop: str, tier: str, seed: int, ctx: Ctx, stats, wall: float
             coverage=cov, assumptions=ctx.assumptions,
             wall_s=round(wall, 3), violations=n_viol)
   p = os.path.join(d, f'{prop}.json')
-  tmp = p + '.tmp'
+  tmp = f'{p}.{os.getpid()}.tmp'   # unique: two runs of one property may overlap
   with open(tmp, 'w') as f:
     json.dump(ev, f, indent=1, default=str)
   os.replace(tmp, p)
